@@ -216,10 +216,17 @@ Proof. exact icmp4_nonvacuous. Qed.
 Print Assumptions C08_icmp4_nonvacuous.
 
 (* ICMPv6 ProcessPacket: every message type (NA/NS target + options, RA options, RS, echo,
-   redirect, MLD, unreachable), for every state (log level, unspecified source, RA processed,
-   hunt list) *)
-Theorem C08_icmp6_total : forall lbl_ok p e, wf p ->
+   redirect, MLD, unreachable), for every state (log level, RA processed, hunt list) and every
+   IPv6 view pkt.IP6() — nil included: Parse classifies an IPv4 packet with protocol 58 as
+   PayloadICMP6 without an IPv6 header (gate of d9f9e28) *)
+Theorem C08_icmp6_total : forall lbl_ok p e ip6, wf p -> wf (ip6_view ip6) ->
   forall fuel, (len p < fuel)%nat ->
-  icmp6_process lbl_ok fuel e p <> Panic /\ icmp6_process lbl_ok fuel e p <> Fuel.
+  icmp6_process lbl_ok fuel e ip6 p <> Panic /\ icmp6_process lbl_ok fuel e ip6 p <> Fuel.
 Proof. exact icmp6_process_total. Qed.
 Print Assumptions C08_icmp6_total.
+
+Example C08_icmp6_without_ip6_header :
+  icmp6_process (fun _ => true) 100 (mkIcmp6Env true true true) None
+                (of_bytes [135; 0; 0; 0; 0; 0; 0; 0; 254; 128; 0; 0; 0; 0; 0; 0; 0; 0; 0; 0; 0; 0; 0; 1]) = Err EFrameLen.
+Proof. exact icmp6_without_ip6_header. Qed.
+Print Assumptions C08_icmp6_without_ip6_header.
